@@ -178,11 +178,23 @@ func lex(src string) ([]token, error) {
 type Expr interface{ exprLine() int }
 
 type (
-	ENum   struct{ Lit string; Line int } // decimal literal
-	EStr   struct{ S string; Line int }
-	ENil   struct{ Line int }
-	EBool  struct{ V bool; Line int }
-	EName  struct{ Name string; Line int }
+	ENum struct {
+		Lit  string
+		Line int
+	} // decimal literal
+	EStr struct {
+		S    string
+		Line int
+	}
+	ENil  struct{ Line int }
+	EBool struct {
+		V    bool
+		Line int
+	}
+	EName struct {
+		Name string
+		Line int
+	}
 	EIndex struct { // KEYS[i] / ARGV[i]
 		Table string
 		Idx   Expr
@@ -491,7 +503,7 @@ var binPrec = map[string]int{
 	"or": 1, "and": 2,
 	"<": 3, ">": 3, "<=": 3, ">=": 3, "~=": 3, "==": 3,
 	"..": 4,
-	"+": 5, "-": 5,
+	"+":  5, "-": 5,
 	"*": 6, "/": 6, "%": 6,
 	"^": 8,
 }
